@@ -16,7 +16,10 @@ Lemmas:
   4. sortedness of what is handed to the tail (what the reader's binary searches need): the class records the tail emits are STRICTLY sorted by the
      obfuscated names the string section resolves, and within every collected class the member records are sorted by resolved method name
      (groups of a BTreeMap in key order, flattened: `lemma_flat_groups_sorted`), the by-params records by (resolved name, resolved parameters).
-     Not written: string interning among a class's members, `wf_member` for every record.
+  5. THE READER'S REPRESENTATION INVARIANT: `wf_cache(c)` (cache_model.rs, the precondition of the cache reader's functional contracts) holds for
+     every cache whose sections are what `parse` reads back from the emitted file: classes strictly sorted, every class's ranges inside the
+     sections (tiling), members sorted by name, by-params records by (name, parameters), `wf_member` for every record (strings readable,
+     numbers in the domain, `u32::MAX` never a readable offset), original names interned (canonical offsets).
 ASSUMED: BTreeMap<&str, V> and BTreeMap<(&str, &str), V> iterate in strictly ascending (lexicographic) key order and `vals` are the values in that order (std);
 the string-table round trip of watto for the strings of the records (`resolves`: an offset handed out reads back the string from the
 final table's bytes; offsets below 2^32-1).
@@ -474,16 +477,11 @@ pub proof fn lemma_group_of_monotone(groups: Seq<Vec<Member>>, x: int, y: int)
         else if x < f0.len() { lemma_group_of(g0, x); }
     }
 }
-pub open spec fn name_of(sb: Seq<u8>, m: Member) -> Seq<char> { tbl(sb, m.obfuscated_name_offset).unwrap() }
-pub open spec fn sorted_by_name(sb: Seq<u8>, ms: Seq<Member>) -> bool {      // the reader's `members_sorted` (cache_model.rs), same text
-    (forall|i: int| 0 <= i < ms.len() ==> tbl(sb, (#[trigger] ms[i]).obfuscated_name_offset) is Some)
-    && (forall|i: int, j: int| 0 <= i < j < ms.len() ==> seq_cmp(name_of(sb, #[trigger] ms[i]), name_of(sb, #[trigger] ms[j])) != Ordering::Greater)
-}
 pub proof fn lemma_flat_groups_sorted(sb: Seq<u8>, groups: Seq<Vec<Member>>, names: Seq<Seq<char>>)
     requires groups.len() == names.len(),
         forall|g: int, i: int| 0 <= g < groups.len() && 0 <= i < groups[g]@.len() ==> tbl(sb, (#[trigger] groups[g]@[i]).obfuscated_name_offset) == Some(names[g]),
         forall|g: int, h: int| 0 <= g < h < names.len() ==> seq_cmp(#[trigger] names[g], #[trigger] names[h]) == Ordering::Less,
-    ensures sorted_by_name(sb, flat(groups)),
+    ensures members_sorted(sb, flat(groups)),
 {
     let f = flat(groups);
     assert forall|x: int| 0 <= x < f.len() implies tbl(sb, (#[trigger] f[x]).obfuscated_name_offset) == Some(names[group_of(groups, x)]) by {
@@ -492,10 +490,10 @@ pub proof fn lemma_flat_groups_sorted(sb: Seq<u8>, groups: Seq<Vec<Member>>, nam
         let i = choose|i: int| 0 <= i < groups[g]@.len() && f[x] == #[trigger] groups[g]@[i];
         assert(tbl(sb, groups[g]@[i].obfuscated_name_offset) == Some(names[g]));
     }
-    assert forall|x: int, y: int| 0 <= x < y < f.len() implies seq_cmp(name_of(sb, #[trigger] f[x]), name_of(sb, #[trigger] f[y])) != Ordering::Greater by {
+    assert forall|x: int, y: int| 0 <= x < y < f.len() implies seq_cmp(member_name(sb, #[trigger] f[x]), member_name(sb, #[trigger] f[y])) != Ordering::Greater by {
         lemma_group_of(groups, x); lemma_group_of(groups, y); lemma_group_of_monotone(groups, x, y);
         let g = group_of(groups, x); let h = group_of(groups, y);
-        assert(name_of(sb, f[x]) == names[g] && name_of(sb, f[y]) == names[h]);
+        assert(member_name(sb, f[x]) == names[g] && member_name(sb, f[y]) == names[h]);
         if g == h { axiom_seq_cmp_total(names[g], names[g]); } else { assert(seq_cmp(names[g], names[h]) == Ordering::Less); }
     }
 }
@@ -507,7 +505,7 @@ pub proof fn lemma_members_of_every_collected_class_are_sorted_by_name<'s>(ts: S
         bmap(classes).contains_key(key),
     ensures
         /*@L:member_records_of_a_class_are_sorted_by_resolved_method_name:C09,C02,C01*/
-        sorted_by_name(table_bytes(ts[recs.len() as int]), flat(vals(bmap(classes)[key].members))),
+        members_sorted(table_bytes(ts[recs.len() as int]), flat(vals(bmap(classes)[key].members))),
 {
     let nn = recs.len() as int; let tn = ts[nn]; let sb = table_bytes(tn);
     lemma_names_run(ts, recs, nn);
@@ -536,7 +534,6 @@ pub proof fn lemma_members_of_every_collected_class_are_sorted_by_name<'s>(ts: S
 
 // ---- the by-params records of every collected class are sorted by (resolved method name, resolved parameter string) ----
 pub uninterp spec fn keys2_of<'a, V>(m: BTreeMap<(&'a str, &'a str), V>) -> Seq<(&'a str, &'a str)>;
-pub open spec fn lex2(a: Ordering, b: Ordering) -> Ordering { if a != Ordering::Equal { a } else { b } }
 // ASSUMED (std): BTreeMap<(&str, &str), V> iterates in strictly ascending lexicographic key order; `vals` are the values in that order
 #[verifier::external_body]
 pub proof fn axiom_btree_pair_order<'a, V>(m: BTreeMap<(&'a str, &'a str), V>)
@@ -546,18 +543,12 @@ pub proof fn axiom_btree_pair_order<'a, V>(m: BTreeMap<(&'a str, &'a str), V>)
         forall|i: int, j: int| 0 <= i < j < keys2_of(m).len() ==>
             lex2(seq_cmp((#[trigger] keys2_of(m)[i]).0@, (#[trigger] keys2_of(m)[j]).0@), seq_cmp(keys2_of(m)[i].1@, keys2_of(m)[j].1@)) == Ordering::Less,
 {}
-pub open spec fn params_of(sb: Seq<u8>, m: Member) -> Seq<char> { match tbl(sb, m.params_offset) { Some(s) => s, None => Seq::empty() } }
-pub open spec fn sorted_by_name_and_params(sb: Seq<u8>, ms: Seq<Member>) -> bool {      // the reader's `members_sorted2` (cache_model.rs), same text
-    (forall|i: int| 0 <= i < ms.len() ==> tbl(sb, (#[trigger] ms[i]).obfuscated_name_offset) is Some)
-    && (forall|i: int, j: int| 0 <= i < j < ms.len() ==>
-            lex2(seq_cmp(name_of(sb, #[trigger] ms[i]), name_of(sb, #[trigger] ms[j])), seq_cmp(params_of(sb, ms[i]), params_of(sb, ms[j]))) != Ordering::Greater)
-}
 pub proof fn lemma_flat_groups_sorted2(sb: Seq<u8>, groups: Seq<Vec<Member>>, names: Seq<Seq<char>>, params: Seq<Seq<char>>)
     requires groups.len() == names.len(), groups.len() == params.len(),
         forall|g: int, i: int| 0 <= g < groups.len() && 0 <= i < groups[g]@.len() ==>
             tbl(sb, (#[trigger] groups[g]@[i]).obfuscated_name_offset) == Some(names[g]) && tbl(sb, groups[g]@[i].params_offset) == Some(params[g]),
         forall|g: int, h: int| 0 <= g < h < names.len() ==> lex2(seq_cmp(#[trigger] names[g], #[trigger] names[h]), seq_cmp(params[g], params[h])) == Ordering::Less,
-    ensures sorted_by_name_and_params(sb, flat(groups)),
+    ensures members_sorted2(sb, flat(groups)),
 {
     let f = flat(groups);
     assert forall|x: int| 0 <= x < f.len() implies tbl(sb, (#[trigger] f[x]).obfuscated_name_offset) == Some(names[group_of(groups, x)]) && tbl(sb, f[x].params_offset) == Some(params[group_of(groups, x)]) by {
@@ -567,10 +558,10 @@ pub proof fn lemma_flat_groups_sorted2(sb: Seq<u8>, groups: Seq<Vec<Member>>, na
         assert(tbl(sb, groups[g]@[i].obfuscated_name_offset) == Some(names[g]));
     }
     assert forall|x: int, y: int| 0 <= x < y < f.len() implies
-        lex2(seq_cmp(name_of(sb, #[trigger] f[x]), name_of(sb, #[trigger] f[y])), seq_cmp(params_of(sb, f[x]), params_of(sb, f[y]))) != Ordering::Greater by {
+        lex2(seq_cmp(member_name(sb, #[trigger] f[x]), member_name(sb, #[trigger] f[y])), seq_cmp(member_params(sb, f[x]), member_params(sb, f[y]))) != Ordering::Greater by {
         lemma_group_of(groups, x); lemma_group_of(groups, y); lemma_group_of_monotone(groups, x, y);
         let g = group_of(groups, x); let h = group_of(groups, y);
-        assert(name_of(sb, f[x]) == names[g] && name_of(sb, f[y]) == names[h] && params_of(sb, f[x]) == params[g] && params_of(sb, f[y]) == params[h]);
+        assert(member_name(sb, f[x]) == names[g] && member_name(sb, f[y]) == names[h] && member_params(sb, f[x]) == params[g] && member_params(sb, f[y]) == params[h]);
         if g == h { axiom_seq_cmp_total(names[g], names[g]); axiom_seq_cmp_total(params[g], params[g]); }
     }
 }
@@ -581,7 +572,7 @@ pub proof fn lemma_by_params_records_of_every_collected_class_are_sorted<'s>(ts:
         bmap(classes).contains_key(key),
     ensures
         /*@L:by_params_records_of_a_class_are_sorted_by_resolved_name_and_parameters:C09,C02,C03*/
-        sorted_by_name_and_params(table_bytes(ts[recs.len() as int]), flat(vals(bmap(classes)[key].members_by_params))),
+        members_sorted2(table_bytes(ts[recs.len() as int]), flat(vals(bmap(classes)[key].members_by_params))),
 {
     let nn = recs.len() as int; let tn = ts[nn]; let sb = table_bytes(tn);
     lemma_names_run(ts, recs, nn);
@@ -609,6 +600,218 @@ pub proof fn lemma_by_params_records_of_every_collected_class_are_sorted<'s>(ts:
     lemma_flat_groups_sorted2(sb, groups, names, params);
 }
 
+
+// ======== every record the writer collects satisfies the reader's `wf_member`, and original-name offsets are canonical (interning) ========
+pub open spec fn table_ok(tn: StringTable) -> bool { tbl(table_bytes(tn), absent()) is None }
+pub open spec fn orig_canon(tn: StringTable, m: Member) -> bool {
+    tbl(table_bytes(tn), m.original_name_offset) is Some && off32(tn, tbl(table_bytes(tn), m.original_name_offset)->0) == m.original_name_offset
+}
+pub open spec fn member_ok(tn: StringTable, m: Member) -> bool { wf_member(table_bytes(tn), m) && orig_canon(tn, m) }
+pub open spec fn cip_wf<'s>(tn: StringTable, w: ACip<'s>) -> bool {
+    &&& forall|k: &'s str, i: int| 0 <= i < (w.members)(k).len() ==> member_ok(tn, #[trigger] (w.members)(k)[i])
+    &&& forall|k: &'s str, p: &'s str, i: int| 0 <= i < (w.by)((k, p)).len() ==> member_ok(tn, #[trigger] (w.by)((k, p))[i])
+}
+pub open spec fn file_ok(tn: StringTable, w: ACip) -> bool { w.class.file_name_offset == absent() || tbl(table_bytes(tn), w.class.file_name_offset) is Some }
+pub open spec fn wf_state<'s>(tn: StringTable, w: AWState<'s>) -> bool {
+    file_ok(tn, w.cur) && cip_wf(tn, w.cur) && forall|k: &'s str| #[trigger] w.done.contains_key(k) ==> cip_wf(tn, w.done[k])
+}
+pub proof fn lemma_wf_step<'s>(tn: StringTable, w: AWState<'s>, tf: StringTable, rec: ProguardRecord<'s>, next: Option<&ProguardRecord<'s>>)
+    requires wf_state(tn, w), table_ok(tn), stable(tf, tn), rec_ok(tn, rec), rec_names_ok(tn, rec), strings_in(tf, rec),
+    ensures wf_state(tn, w_step(w, tf, rec, next)),
+{
+    let w1 = w_step(w, tf, rec, next);
+    let sb = table_bytes(tn);
+    match rec {
+        ProguardRecord::Header { key, value } => {
+            if key@ == "sourceFile"@ { match value { Some(f) => { assert(strings_of(rec)[0] == f@); assert(offset_of(tf, f@) is Some); }, None => {} } }
+            assert forall|k: &'s str, i: int| 0 <= i < (w1.cur.members)(k).len() implies member_ok(tn, #[trigger] (w1.cur.members)(k)[i]) by { assert((w1.cur.members)(k) == (w.cur.members)(k)); }
+            assert forall|k: &'s str, p: &'s str, i: int| 0 <= i < (w1.cur.by)((k, p)).len() implies member_ok(tn, #[trigger] (w1.cur.by)((k, p))[i]) by { assert((w1.cur.by)((k, p)) == (w.cur.by)((k, p))); }
+        },
+        ProguardRecord::Class { original, obfuscated } => {
+            assert forall|k: &'s str, i: int| 0 <= i < (w1.cur.members)(k).len() implies member_ok(tn, #[trigger] (w1.cur.members)(k)[i]) by { assert((w1.cur.members)(k) == Seq::<Member>::empty()); }
+            assert forall|k: &'s str, p: &'s str, i: int| 0 <= i < (w1.cur.by)((k, p)).len() implies member_ok(tn, #[trigger] (w1.cur.by)((k, p))[i]) by { assert((w1.cur.by)((k, p)) == Seq::<Member>::empty()); }
+            assert forall|k: &'s str| #[trigger] w1.done.contains_key(k) implies cip_wf(tn, w1.done[k]) by {
+                if w.cur.name@.len() > 0 && k == w.cur.name { } else { assert(w.done.contains_key(k)); }
+            }
+        },
+        ProguardRecord::Method { ty, original, obfuscated, arguments, original_class, line_mapping } => {
+            let ss = strings_of(rec);
+            assert(ss[0] == obfuscated@ && ss[1] == original@ && ss[2] == arguments@);
+            assert(offset_of(tf, obfuscated@) is Some && offset_of(tf, original@) is Some && offset_of(tf, arguments@) is Some);
+            match original_class { Some(c) => { assert(ss[3] == c@); assert(offset_of(tf, c@) is Some); }, None => {} }
+            let foff = w.cur.class.file_name_offset;
+            let m = stored_member(line_mapping, tf, obfuscated, original, original_class, arguments, foff);
+            assert(m == stored_member(line_mapping, tn, obfuscated, original, original_class, arguments, foff));
+            let i_ = interp(line_mapping);
+            lemma_interp_domain(line_mapping);
+            match i_.orig_end { Some(x) => { assert(m.original_endline as int == x && m.original_endline != absent()); }, None => { assert(m.original_endline == absent()); } }
+            assert(member_strings_ok(sb, m));
+            assert(entry_in_domain(abs_member(sb, m)));
+            assert(member_ok(tn, m));
+            assert forall|k: &'s str, i: int| 0 <= i < (w1.cur.members)(k).len() implies member_ok(tn, #[trigger] (w1.cur.members)(k)[i]) by {
+                if k == obfuscated { if i < (w.cur.members)(k).len() { assert((w1.cur.members)(k)[i] == (w.cur.members)(k)[i]); } } else { assert((w1.cur.members)(k) == (w.cur.members)(k)); }
+            }
+            assert forall|k: &'s str, p: &'s str, i: int| 0 <= i < (w1.cur.by)((k, p)).len() implies member_ok(tn, #[trigger] (w1.cur.by)((k, p))[i]) by {
+                if (w1.cur.by)((k, p)) == (w.cur.by)((k, p)) { } else {
+                    assert((k, p) == (obfuscated, arguments));
+                    if i < (w.cur.by)((k, p)).len() { assert((w1.cur.by)((k, p))[i] == (w.cur.by)((k, p))[i]); }
+                }
+            }
+        },
+        _ => {},
+    }
+}
+pub proof fn lemma_wf_run<'s>(ts: Seq<StringTable>, recs: Seq<ProguardRecord<'s>>, n: int)
+    requires tables_ok(ts, recs, recs.len() as int), recs_ok(ts[recs.len() as int], recs), recs_names_ok(ts[recs.len() as int], recs), table_ok(ts[recs.len() as int]), 0 <= n <= recs.len(),
+    ensures wf_state(ts[recs.len() as int], w_run(ts, recs, n)),
+    decreases n
+{
+    let nn = recs.len() as int; let tn = ts[nn];
+    if n > 0 {
+        lemma_wf_run(ts, recs, n - 1);
+        lemma_tables_stable(ts, recs, nn, n);
+        assert(table_grew(ts[n - 1], ts[n], strings_of(recs[n - 1])));
+        assert(rec_ok(tn, recs[n - 1]) && rec_names_ok(tn, recs[n - 1]));
+        lemma_wf_step(tn, w_run(ts, recs, n - 1), ts[n], recs[n - 1], next_of(recs, n));
+    }
+}
+
+
+// ======== the ranges of the emitted class records tile the two member sections ========
+pub proof fn lemma_tiling(cs: Seq<ClassInProgress>, n: int, i: int)
+    requires 0 <= i < n <= cs.len(),
+    ensures
+        members_before(cs, i) + flat(vals(cs[i].members)).len() <= all_members(cs, n).len(),
+        all_members(cs, n).subrange(members_before(cs, i), members_before(cs, i) + flat(vals(cs[i].members)).len()) == flat(vals(cs[i].members)),
+        by_params_before(cs, i) + flat(vals(cs[i].members_by_params)).len() <= all_by_params(cs, n).len(),
+        all_by_params(cs, n).subrange(by_params_before(cs, i), by_params_before(cs, i) + flat(vals(cs[i].members_by_params)).len()) == flat(vals(cs[i].members_by_params)),
+    decreases n
+{
+    lemma_members_before(cs, n - 1);
+    let f = flat(vals(cs[n - 1].members)); let g = flat(vals(cs[n - 1].members_by_params));
+    assert(all_members(cs, n) == all_members(cs, n - 1) + f);
+    assert(all_by_params(cs, n) == all_by_params(cs, n - 1) + g);
+    if i == n - 1 {
+        assert(all_members(cs, n).subrange(members_before(cs, i), members_before(cs, i) + f.len()) =~= f);
+        assert(all_by_params(cs, n).subrange(by_params_before(cs, i), by_params_before(cs, i) + g.len()) =~= g);
+    } else {
+        lemma_tiling(cs, n - 1, i);
+        lemma_members_before(cs, i);
+        let fi = flat(vals(cs[i].members)); let gi = flat(vals(cs[i].members_by_params));
+        assert(all_members(cs, n).subrange(members_before(cs, i), members_before(cs, i) + fi.len()) =~= all_members(cs, n - 1).subrange(members_before(cs, i), members_before(cs, i) + fi.len()));
+        assert(all_by_params(cs, n).subrange(by_params_before(cs, i), by_params_before(cs, i) + gi.len()) =~= all_by_params(cs, n - 1).subrange(by_params_before(cs, i), by_params_before(cs, i) + gi.len()));
+    }
+}
+// every record of a flattened BTreeMap of groups is a record of one of the groups
+pub proof fn lemma_flat_all(groups: Seq<Vec<Member>>, p: spec_fn(Member) -> bool)
+    requires forall|g: int, i: int| 0 <= g < groups.len() && 0 <= i < groups[g]@.len() ==> p(#[trigger] groups[g]@[i]),
+    ensures forall|x: int| 0 <= x < flat(groups).len() ==> p(#[trigger] flat(groups)[x]),
+{
+    assert forall|x: int| 0 <= x < flat(groups).len() implies p(#[trigger] flat(groups)[x]) by {
+        lemma_group_of(groups, x);
+        let g = group_of(groups, x);
+        let i = choose|i: int| 0 <= i < groups[g]@.len() && flat(groups)[x] == #[trigger] groups[g]@[i];
+        assert(p(groups[g]@[i]));
+    }
+}
+
+
+// ======== THE READER'S REPRESENTATION INVARIANT HOLDS FOR WHAT THE WRITER EMITS ========
+pub proof fn lemma_class_of_key<'s>(ts: Seq<StringTable>, recs: Seq<ProguardRecord<'s>>, classes: BTreeMap<&'s str, ClassInProgress<'s>>, key: &'s str)
+    requires
+        tables_ok(ts, recs, recs.len() as int), recs_ok(ts[recs.len() as int], recs), recs_names_ok(ts[recs.len() as int], recs), table_ok(ts[recs.len() as int]),
+        abs_done(bmap(classes)) == w_flush(w_run(ts, recs, recs.len() as int).done, w_run(ts, recs, recs.len() as int).cur),
+        bmap(classes).contains_key(key),
+    ensures ({ let tn = ts[recs.len() as int]; let sb = table_bytes(tn); let c = bmap(classes)[key];
+        &&& tbl(sb, c.class.original_name_offset) is Some
+        &&& forall|x: int| 0 <= x < flat(vals(c.members)).len() ==> member_ok(tn, #[trigger] flat(vals(c.members))[x])
+        &&& forall|x: int| 0 <= x < flat(vals(c.members_by_params)).len() ==> member_ok(tn, #[trigger] flat(vals(c.members_by_params))[x])
+    }),
+{
+    let nn = recs.len() as int; let tn = ts[nn]; let sb = table_bytes(tn);
+    lemma_wf_run(ts, recs, nn);
+    lemma_mapper_and_cache_writer_collect_the_same_entries(ts, recs);
+    lemma_done_keys(recs, nn);
+    let ws = w_run(ts, recs, nn); let w = w_flush(ws.done, ws.cur);
+    let a = run(recs, true, nn); let m = built(recs, true);
+    let c = bmap(classes)[key];
+    assert(abs_done(bmap(classes)).contains_key(key) && abs_done(bmap(classes))[key] == abs_cip(c));
+    assert(w.contains_key(key) && m.contains_key(key));
+    if ws.cur.name@.len() > 0 && key == ws.cur.name { assert(w[key] == ws.cur); } else { assert(ws.done.contains_key(key)); assert(w[key] == ws.done[key]); }
+    assert(cip_wf(tn, w[key]));
+    assert(rel_class(tn, m[key], w[key]));
+    if a.cur.original@.len() > 0 && key == a.cur.obfuscated { assert(m[key] == a.cur); } else { assert(a.done.contains_key(key)); assert(m[key] == a.done[key]); }
+    assert(m[key].original@.len() > 0);
+    assert(w[key].class == c.class);
+    axiom_btree_str_order(c.members);
+    axiom_btree_pair_order(c.members_by_params);
+    let g1 = vals(c.members); let k1 = keys_of(c.members);
+    assert forall|g: int, i: int| 0 <= g < g1.len() && 0 <= i < g1[g]@.len() implies member_ok(tn, #[trigger] g1[g]@[i]) by {
+        let k = k1[g];
+        assert(bmap(c.members).contains_key(k) && bmap(c.members)[k] == g1[g]);
+        assert((abs_cip(c).members)(k) == vec_at(c.members, k));
+        assert((w[key].members)(k) == g1[g]@);
+        assert(member_ok(tn, (w[key].members)(k)[i]));
+    }
+    lemma_flat_all(g1, |x: Member| member_ok(tn, x));
+    let g2 = vals(c.members_by_params); let k2 = keys2_of(c.members_by_params);
+    assert forall|g: int, i: int| 0 <= g < g2.len() && 0 <= i < g2[g]@.len() implies member_ok(tn, #[trigger] g2[g]@[i]) by {
+        let k = k2[g];
+        assert(bmap(c.members_by_params).contains_key(k) && bmap(c.members_by_params)[k] == g2[g]);
+        assert((abs_cip(c).by)(k) == vec_at(c.members_by_params, k));
+        assert((w[key].by)((k.0, k.1)) == g2[g]@);
+        assert(member_ok(tn, (w[key].by)((k.0, k.1))[i]));
+    }
+    lemma_flat_all(g2, |x: Member| member_ok(tn, x));
+}
+
+pub proof fn lemma_cache_written_from_a_mapping_satisfies_the_readers_invariant<'s>(ts: Seq<StringTable>, recs: Seq<ProguardRecord<'s>>,
+        classes: BTreeMap<&'s str, ClassInProgress<'s>>, c: ProguardCache)
+    requires
+        // the mapping is in the property's domain and the string table reads back what it handed out
+        tables_ok(ts, recs, recs.len() as int), recs_ok(ts[recs.len() as int], recs), recs_names_ok(ts[recs.len() as int], recs), table_ok(ts[recs.len() as int]),
+        // unit u14: what the collection loop leaves behind
+        abs_done(bmap(classes)) == w_flush(w_run(ts, recs, recs.len() as int).done, w_run(ts, recs, recs.len() as int).cur),
+        forall|i: int| 0 <= i < vals(classes).len() ==> wf_cip(#[trigger] vals(classes)[i]),
+        all_members(vals(classes), vals(classes).len() as int).len() <= u32::MAX, all_by_params(vals(classes), vals(classes).len() as int).len() <= u32::MAX,
+        // units u8 + u20: what `parse` reads back from the emitted file
+        c.classes@ == emitted_classes(vals(classes), vals(classes).len() as int),
+        c.members@ == all_members(vals(classes), vals(classes).len() as int),
+        c.members_by_params@ == all_by_params(vals(classes), vals(classes).len() as int),
+        c.string_bytes@ == table_bytes(ts[recs.len() as int]),
+    ensures
+        /*@L:written_cache_satisfies_the_readers_representation_invariant:C02,C01,C03,C04,C09*/ wf_cache(c),
+{
+    let nn = recs.len() as int; let tn = ts[nn]; let sb = table_bytes(tn);
+    let cs = vals(classes); let n = cs.len() as int; let ks = keys_of(classes);
+    lemma_emitted_class_section_is_strictly_sorted(ts, recs, classes);
+    axiom_btree_str_order(classes);
+    assert forall|i: int| 0 <= i < c.classes@.len() implies wf_class(c, #[trigger] c.classes@[i]) by {
+        let key = ks[i];
+        let cl = c.classes@[i];
+        assert(cl == emitted_class(cs, i));
+        assert(bmap(classes).contains_key(key) && bmap(classes)[key] == cs[i]);
+        lemma_class_of_key(ts, recs, classes, key);
+        lemma_members_of_every_collected_class_are_sorted_by_name(ts, recs, classes, key);
+        lemma_by_params_records_of_every_collected_class_are_sorted(ts, recs, classes, key);
+        lemma_tiling(cs, n, i);
+        lemma_members_before(cs, i);
+        lemma_members_before(cs, n);
+        assert(wf_cip(cs[i]));
+        let fm = flat(vals(cs[i].members)); let fb = flat(vals(cs[i].members_by_params));
+        assert(cl.members_offset as int == members_before(cs, i) && cl.members_len as int == fm.len());
+        assert(cl.members_by_params_offset as int == by_params_before(cs, i) && cl.members_by_params_len as int == fb.len());
+        assert(class_members(c, cl) == fm);
+        assert(class_members_by_params(c, cl) == fb);
+        assert forall|k: int| 0 <= k < fm.len() implies wf_member(sb, #[trigger] fm[k]) by { assert(member_ok(tn, fm[k])); }
+        assert forall|k: int| 0 <= k < fb.len() implies wf_member(sb, #[trigger] fb[k]) by { assert(member_ok(tn, fb[k])); }
+        assert forall|x: int, y: int| 0 <= x < fm.len() && 0 <= y < fm.len()
+            && tbl(sb, (#[trigger] fm[x]).original_name_offset) == tbl(sb, (#[trigger] fm[y]).original_name_offset) implies fm[x].original_name_offset == fm[y].original_name_offset by {
+            assert(member_ok(tn, fm[x]) && member_ok(tn, fm[y]));
+        }
+    }
+}
+
 // the hypotheses are satisfiable whenever the table resolves the record's strings (no contradiction hidden in the requires)
 pub proof fn lemma_same_entry_instance(t: StringTable, original: &str)
     requires resolves(t, original@),
@@ -618,6 +821,22 @@ pub proof fn lemma_same_entry_instance(t: StringTable, original: &str)
 }
 
 """
+
+
+def label_helper_lemmas(text, prop):
+    """Every proof function of the lemma text whose statement carries no label gets one (named after the function, charged to `prop`):
+    a step of the refinement that fails is a failed obligation of that property, not an anonymous event."""
+    out, pos = [], 0
+    for m in re.finditer(r"(?m)^pub proof fn (\w+)", text):
+        body = text.find("\n{", m.end())
+        hdr = text[m.end():body if body >= 0 else len(text)]
+        if "/*@L:" in hdr or "ensures" not in hdr:
+            continue
+        e = text.index("ensures", m.end())
+        out.append(text[pos:e + len("ensures")] + " /*@L:%s:%s*/" % (m.group(1), prop))
+        pos = e + len("ensures")
+    out.append(text[pos:])
+    return "".join(out)
 
 
 def build():
@@ -637,7 +856,9 @@ def build():
     u.raw("pub mod raw {\nuse super::*;\n", "glue")
     extract_struct(u, raw, "Class")
     extract_struct(u, raw, "Member")
-    u.raw("}\nuse raw::{Class, Member};\n", "glue")
+    extract_struct(u, raw, "Header")
+    extract_struct(u, raw, "ProguardCache")
+    u.raw("}\nuse raw::{Class, Member, Header, ProguardCache};\n", "glue")
     extract_struct_priv(u, raw, "ClassInProgress")
     u.raw(contract("model.rs"), "model (shared Entry / retrace)")
     cache_model = contract("cache_model.rs")
@@ -679,10 +900,16 @@ def build():
         cut(w_src, r"pub uninterp spec fn bmap<K, V>"), cut(w_src, r"pub uninterp spec fn vals<K, V>"), cut(w_src, r"pub open spec fn flat<T>"),
         cut(w_src, r"pub open spec fn vec_at<K>"), cut(w_src, r"pub open spec fn abs_cip<'d>"), cut(w_src, r"pub open spec fn abs_done<'d>"),
         cut(writer_model, r"pub open spec fn members_before\b"), cut(writer_model, r"pub open spec fn by_params_before\b"), cut(writer_model, r"pub open spec fn emitted_class\b"),
-        cut(cache_model, r"pub open spec fn classes_sorted\b"),
+        cut(writer_model, r"pub open spec fn all_members\b"), cut(writer_model, r"pub open spec fn all_by_params\b"), cut(writer_model, r"pub open spec fn wf_cip\b"),
+        cut(contract("writer_lemmas.rs"), r"pub proof fn lemma_members_before\b"),
+        cut(cache_model, r"pub open spec fn member_strings_ok\b"), cut(cache_model, r"pub open spec fn wf_member\b"),
+        cut(cache_model, r"pub open spec fn classes_sorted\b"), cut(cache_model, r"pub open spec fn member_name\b"), cut(cache_model, r"pub open spec fn members_sorted\b"),
+        cut(cache_model, r"pub open spec fn member_params\b"), cut(cache_model, r"pub open spec fn lex2\b"), cut(cache_model, r"pub open spec fn members_sorted2\b"),
+        cut(cache_model, r"pub open spec fn class_members\("), cut(cache_model, r"pub open spec fn class_members_by_params\b"), cut(cache_model, r"pub open spec fn names_interned\b"),
+        cut(cache_model, r"pub open spec fn wf_class\b"), cut(cache_model, r"pub open spec fn wf_cache\b"),
         cut(std_specs, r"pub uninterp spec fn seq_cmp\b"), "#[verifier::external_body]\n" + cut(std_specs, r"pub proof fn axiom_seq_cmp_total\b"),
     ]
     u.raw("// ---- definitions cut out of the units / contract files that use them (same text) ----\n" + "".join(pieces), "specifications under comparison")
-    u.raw(LEMMA, "lemma")
+    u.raw(label_helper_lemmas(LEMMA, "C02"), "lemma")
     u.raw(FOOTER, "footer")
     return u
